@@ -592,7 +592,11 @@ int main(int argc, char** argv) {
                 // (min / max treat a NaN operand differently by position; operand order is per deck)
                 auto deckp = std::make_shared<Deck>(tr);
                 Deck& deck = *deckp;
-                JacobianEvaluator je(deckp, vars);
+                // a long-lived evaluator: it holds other values for every variable (masked ones included)
+                // than the ones this solve is given
+                std::map<Tree::Id, float> stale;
+                { int k = 0; for (auto& v : vars) stale[v.first] = v.second + 7.25f * (++k); }
+                JacobianEvaluator je(deckp, stale);
                 auto res = Solver::findRoot(je, deckp->tape, vars, pos, mask, gas);
                 Solver::verif_trace = nullptr;
                 std::ostringstream ss;
